@@ -14,7 +14,7 @@ import pickle
 
 import fiddle as fdl
 from fiddle import history as fdl_history
-from fiddle import tagging as fdl_tagging
+from fiddle._src import tagging as fdl_tagging
 from fiddle._src import mutate_buildable
 from fiddle._src import materialize
 from fiddle.experimental import serialization
@@ -198,6 +198,9 @@ def step(env: Env, op):
   try:
     out = apply_op(env, op)
   except Exception as e:  # pylint: disable=broad-except
+    if isinstance(e, (AttributeError, NameError)) and (
+        'module ' in str(e) or isinstance(e, NameError)):
+      raise  # a harness bug, not an observation
     out = C.canon_exc(e)
     if env.exc_class is not None and out['exc'] == env.exc_class.__name__:
       out['own_class'] = isinstance(e, env.exc_class)
